@@ -30,7 +30,9 @@ _DRIVE_SPEC = """    ensures
 
 _DRIVE_LOOP = """
         invariant_except_break
-            c06(scan_rest(self.reader.rest()) == scan_rest(b0.skip(8))),
+            // the loop follows the RFC framing token by token, for every input (what makes a byte outside the tag ranges a
+            // rejection: C04's last clause); its consequences for well-formed input are C06, for cut input C07 (loop ensures)
+            c04(scan_rest(self.reader.rest()) == scan_rest(b0.skip(8))),
             b0 == old(self).reader.rest(),
             // what was read before the loop stays known inside it (so that a `return Ok(header)` from inside the loop
             // verifies like `break` + trailing `Ok(header)`)
@@ -43,7 +45,8 @@ _DRIVE_LOOP = """
             c05(t_run(self.reader.rest(), self.state.abs()) == t_run(b0.skip(8), a0)),
         ensures
             c05(t_run(b0.skip(8), a0) == (TOut::Ok { s: self.state.abs(), rest: self.reader.rest() })),
-            c06(Some(self.reader.rest()) == scan_rest(b0.skip(8))),
+            c07(scan_rest(b0.skip(8)) is Some),
+            c06(scan_rest(b0.skip(8)) is Some ==> Some(self.reader.rest()) == scan_rest(b0.skip(8))),
             c04(wf0 ==> self.state.abs() == m_run(b0.skip(8), m_init()).unwrap().0),
             c06(wf0 ==> self.reader.rest() == m_run(b0.skip(8), m_init()).unwrap().1),
             c02(old(self).state.sizes() ==> self.state.sizes()),
